@@ -12,6 +12,7 @@
 //!                                                            bits; the float pre-processing is recomputed in the harness)
 //!   apow2i          `some <hex>` | `none`                   (approx_pow2 of the signed decimal integer argument as f64)
 //!   alog2           `<hex raw f64 bits>`                    (approx_log2)
+//!   l1mul l1wmul l1wadd l1div l1sshl1 l1cadd1 l1bitlen      the `Uint` operations used by the loop bodies (L1 specs of the L2 models)
 use ruint::verif_hooks::take_tap;
 use vh::*;
 
@@ -39,6 +40,28 @@ fn run<const B: usize, const L: usize>(p: &[&str]) -> String {
                 "spow" => h(&a.saturating_pow(e)),
                 "wpow" => h(&a.wrapping_pow(e)),
                 _ => h(&Uint::pow(a, e)),
+            }
+        }
+        // the L1 operations the L2 models of pow/log/root are built on (value-level specs)
+        "l1mul" | "l1div" | "l1wmul" | "l1wadd" => {
+            let a: U<B, L> = u(p[2]);
+            let c: U<B, L> = u(p[3]);
+            match op {
+                "l1mul" => {
+                    let (r, f) = a.overflowing_mul(c);
+                    format!("{} {}", h(&r), b(f))
+                }
+                "l1wmul" => h(&(a * c)),
+                "l1wadd" => h(&(a + c)),
+                _ => h(&(a / c)),
+            }
+        }
+        "l1sshl1" | "l1cadd1" | "l1bitlen" => {
+            let a: U<B, L> = u(p[2]);
+            match op {
+                "l1sshl1" => h(&a.saturating_shl(1)),
+                "l1cadd1" => opt(a.checked_add(U::<B, L>::ONE)),
+                _ => format!("{:x}", a.bit_len()),
             }
         }
         "log" | "clog" => {
